@@ -78,4 +78,77 @@ theorem sharedRelease_spec (subs : List Arena) (hI : ∀ s ∈ subs, Inv s) :
     intro s hs
     exact release_eq_fresh (destructAllSt_inv (hI s hs))
 
+/-! ### no read after free across the per-thread resources -/
+
+/-- the second-pass trace of one resource -/
+abbrev pass2 (s : Arena) : List Ev := releasePages s.pa s.pageArrs ++ releaseOv s.up s.ovArrs
+
+theorem pass2_frees_regions {s : Arena} (hI : Inv s) {x : Ev} (hx : x ∈ pass2 s) {f : Seg}
+    (hf : x.freedSeg s.pageSize = some f) : f ∈ regions s := by
+  have hc := hI.core
+  simp only [regions, pageRegs, ovRegs, hc.pg.heldEq, hc.ov.heldEq, List.map_map, List.mem_append, List.mem_map]
+  rcases List.mem_append.mp hx with hx | hx
+  · obtain ⟨p, hp, rfl⟩ := (releasePages_events s.pageSize s.pa s.pageArrs (fun a ha => (hc.pg.shape a ha).2.1)).2 x hx f hf
+    exact Or.inl ⟨p, hp, rfl⟩
+  · obtain ⟨e, he, rfl⟩ := (releaseOv_events s.pageSize s.up s.ovArrs hc.ov.shape).2 x hx f hf
+    exact Or.inr ⟨e, he, rfl⟩
+
+theorem pass2_reads_regions {s : Arena} (hI : Inv s) {y : Ev} (hy : y ∈ pass2 s) {r : Seg}
+    (hr : y.readSeg = some r) : ∃ q ∈ regions s, Inside r q := by
+  have hc := hI.core
+  rcases List.mem_append.mp hy with hy | hy
+  · obtain ⟨a, ha, hin⟩ := (releasePages_events s.pageSize s.pa s.pageArrs (fun a ha => (hc.pg.shape a ha).2.1)).1 y hy r hr
+    obtain ⟨q, hq, hin2⟩ := arrsHome_mem hc.pg.home ha
+    refine ⟨⟨q, s.pageSize⟩, ?_, hin.trans hin2⟩
+    simp only [regions, pageRegs, hc.pg.heldEq, List.map_map, List.mem_append, List.mem_map]
+    exact Or.inl ⟨q, hq, rfl⟩
+  · obtain ⟨a, ha, hin⟩ := (releaseOv_events s.pageSize s.up s.ovArrs hc.ov.shape).1 y hy r hr
+    obtain ⟨last, hl, hhome⟩ := ovArr_home (hc.ov.shape a ha)
+    refine ⟨last.seg, ?_, hin.trans hhome⟩
+    simp only [regions, ovRegs, hc.ov.heldEq, List.map_map, List.mem_append, List.mem_map]
+    exact Or.inr ⟨last, List.mem_flatMap.mpr ⟨a, ha, List.mem_of_getLast? hl⟩, rfl⟩
+
+theorem pass2_noRAF {s : Arena} (hI : Inv s) : NoReadAfterFree s.pageSize (pass2 s) := by
+  have h := release_noRAF (destructAllSt_inv hI)
+  rw [release_after_destruct] at h
+  exact h
+
+/-- Across all per-thread resources (same page allocator, hence same page size; regions of
+different resources disjoint — `SysInv.cross`), the shared `release()` never reads bookkeeping from
+memory that was returned earlier, neither its own nor another thread's. -/
+theorem sharedRelease_noRAF (ps : Nat) (subs : List Arena) (hI : ∀ s ∈ subs, Inv s)
+    (hps : ∀ s ∈ subs, s.pageSize = ps)
+    (hcross : subs.Pairwise (fun a b => ∀ r ∈ regions a, ∀ q ∈ regions b, Disj r q)) :
+    NoReadAfterFree ps (sharedRelease subs).2 := by
+  have hpost : NoReadAfterFree ps (subs.flatMap pass2) := by
+    induction subs with
+    | nil => exact List.Pairwise.nil
+    | cons s rest ih =>
+      obtain ⟨hc1, hc2⟩ := List.pairwise_cons.mp hcross
+      have hs := hI s List.mem_cons_self
+      have hpss := hps s List.mem_cons_self
+      have ihr := ih (fun x hx => hI x (List.mem_cons_of_mem _ hx)) (fun x hx => hps x (List.mem_cons_of_mem _ hx)) hc2
+      unfold NoReadAfterFree at *
+      simp only [List.flatMap_cons]
+      refine List.pairwise_append.mpr ⟨?_, ihr, ?_⟩
+      · have := pass2_noRAF hs
+        rw [hpss] at this; exact this
+      · intro x hx y hy f r hf hr
+        obtain ⟨s', hs', hy'⟩ := List.mem_flatMap.mp hy
+        rw [← hpss] at hf
+        have hf' := pass2_frees_regions hs hx hf
+        obtain ⟨q, hq, hin⟩ := pass2_reads_regions (hI s' (List.mem_cons_of_mem _ hs')) hy' hr
+        exact Disj.of_sub_left (hc1 s' hs' f hf' q hq).symm hin.sub
+  have hpre : ∀ x ∈ subs.flatMap (fun s => destructAll s.dtArrs), x.freedSeg ps = none := by
+    intro x hx
+    obtain ⟨s, _, hs⟩ := List.mem_flatMap.mp hx
+    have := (destructAll_proj s.dtArrs).2.2.2 x hs
+    cases x <;> simp_all [Ev.isFree, Ev.freedSeg]
+  have heq : (sharedRelease subs).2 = subs.flatMap (fun s => destructAll s.dtArrs) ++ subs.flatMap pass2 := by
+    simp only [sharedRelease, List.flatMap_map, release_after_destruct]
+    rfl
+  rw [heq]
+  unfold NoReadAfterFree at *
+  exact List.pairwise_append.mpr ⟨pairwise_of_no_free hpre, hpost, fun x hx y _ => rafok_of_not_free (hpre x hx) y⟩
+
 end Babylon.Arena
